@@ -298,14 +298,27 @@ def bc_def_other(check, proj):
             continue
         for (lab, a), b in zip(flat(out), wantf(W)):
             _decide(check, "BC-DEF", f.qualname, f.loc(), A, a, b, "shallow water %s: %s" % (name, "[h, -u]" if name == "sym" else "copies the interior state"), key="sw-%s-%s" % (name, lab))
-    # dirichlet for every model
-    f = proj.func("modelphy.base.model.bc_dirichlet")
-    ctx = Ctx(proj, "euler1d")
-    A = ctx.alg
-    prim = ctx.prim("prm")
-    out = ctx.call(f, A.sym("dir", unit=True), ctx.prim(""), ParamDict({"prim": prim}))
-    ok = isinstance(out, list) and len(out) == len(prim) and all(A.equal(a, b) for a, b in zip(out, prim))
-    check.record("BC-DEF", f.qualname, ok, "dirichlet returns param['prim'] unmodified", f.loc(), key="dirichlet")
+    # dirichlet for every model: the function each model's registry binds to the name (the base one, or an override)
+    seen_d = set()
+    for mkey in ("euler1d", "euler2d", "shallowwater", "convection", "burgers", "nozzle"):
+        if mkey not in MODELS or not proj.has_cls(MODELS[mkey]["cls"]):
+            continue
+        mcls = proj.cls(MODELS[mkey]["cls"])
+        f = proj.instance_registry(mcls, "_bcdict").get("dirichlet")
+        if f is None or (f.qualname, mkey == "euler2d") in seen_d:
+            continue
+        seen_d.add((f.qualname, mkey == "euler2d"))
+        ctx = Ctx(proj, mkey)
+        A = ctx.alg
+        prim = ctx.prim("prm")
+        nrm = Vec(A.sym("nx"), A.sym("ny")) if mkey == "euler2d" else A.sym("dir", unit=True)
+        try:
+            out = ctx.call(f, nrm, ctx.prim(""), ParamDict({"prim": prim}))
+        except AnalysisError as e:
+            check.failed("BC-DEF", "%s [%s]" % (f.qualname, mkey), e, f.loc())
+            continue
+        ok = isinstance(out, (list, tuple)) and len(out) == len(prim) and all(A.equal(a, b) for (_, a), (_, b) in zip(flat(list(out)), flat(prim))) and len(flat(list(out))) == len(flat(prim))
+        check.record("BC-DEF", "%s [%s]" % (f.qualname, mkey), ok, "dirichlet returns param['prim'] unmodified", f.loc(), key="dirichlet")
     # 2D Euler
     key = "euler2d"
     cls = proj.cls(MODELS[key]["cls"])
